@@ -4,32 +4,19 @@ use crate::support::*;
 use core::cmp::Ordering;
 pub mod ty {
     #![deny(warnings)]
-    #![allow(dead_code, unused_imports)]
+    #![allow(dead_code, unused_imports, non_snake_case)]
     use crate::support::{A, B, C, Good, Bad, m_eq, m_cmp, m_pcmp, m_hash, m_fmt, m_clone, m_clone_c, m_into, g_eq, g_cmp, g_pcmp, g_hash, g_fmt};
     use educe::Educe;
-
-    // names at the derive site that shadow everything the generated code might be tempted to write unqualified
-    #[allow(non_camel_case_types)] pub struct Option; pub struct Result; pub struct Ordering; pub struct Clone; pub struct Copy;
-    pub struct Default; pub struct Debug; pub struct PartialEq; pub struct Eq; pub struct PartialOrd; pub struct Ord; pub struct Hash;
-    pub struct Hasher; pub struct Into; pub struct From; pub struct Deref; pub struct DerefMut; pub struct Formatter; pub struct String;
-    pub struct Vec; pub struct Box; pub struct PhantomData; pub struct Sized; pub struct Send; pub struct Iterator; pub struct Self_;
-    #[allow(non_snake_case)] pub fn Some() {} #[allow(non_snake_case)] pub fn None() {} #[allow(non_snake_case)] pub fn Ok() {} #[allow(non_snake_case)] pub fn Err() {}
-    pub fn drop() {} pub mod core {} pub mod std {} pub mod alloc {} pub mod fmt {} pub mod cmp {} pub mod hash {} pub mod clone {} pub mod marker {}
-    #[allow(unused_macros)] macro_rules! stringify { ($($t:tt)*) => { "SHADOWED" } }
-    #[allow(unused_macros)] macro_rules! unreachable { ($($t:tt)*) => { () } }
-    #[allow(unused_macros)] macro_rules! panic { ($($t:tt)*) => { () } }
-    #[allow(unused_macros)] macro_rules! matches { ($($t:tt)*) => { true } }
-    #[allow(unused_macros)] macro_rules! write { ($($t:tt)*) => { () } }
-    #[allow(unused_macros)] macro_rules! format_args { ($($t:tt)*) => { () } }
-    #[allow(unused_macros)] macro_rules! assert { ($($t:tt)*) => { () } }
 #[derive(Educe)]
-#[educe(Eq, PartialOrd, Ord, PartialEq)]
-pub enum T { Some { f: A<0>, #[educe(PartialOrd(ignore = true))] self_data: A<1> }, B(#[educe(PartialOrd(ignore))] A<0>) }
+#[repr(i8)]
+#[educe(Debug)]
+#[educe(PartialOrd, Ord, Eq, PartialEq)]
+pub enum T { C(#[educe(PartialOrd(rank("-5"), method(m_cmp)))] A<0>, #[educe(PartialOrd(method = m_cmp), Debug(ignore = false))] A<1>, #[educe(PartialOrd(rank = 0))] A<0>, #[educe(Debug(ignore = true), PartialOrd(method = "m_cmp"))] A<3>), None(#[educe(PartialOrd(ignore))] A<0>, #[educe(PartialOrd(method(m_cmp)))] A<1>, #[educe(PartialOrd(rank = 0x3))] A<0>, #[educe(Debug = false, PartialOrd(rank = "6", method = m_cmp))] A<3>) }
 }
 pub use ty::T;
 
-pub fn values() -> Vec<T> { vec![T::Some { f: A(0), self_data: A(0) }, T::Some { f: A(0), self_data: A(1) }, T::Some { f: A(0), self_data: A(7) }, T::Some { f: A(1), self_data: A(0) }, T::Some { f: A(1), self_data: A(1) }, T::Some { f: A(1), self_data: A(7) }, T::Some { f: A(7), self_data: A(0) }, T::Some { f: A(7), self_data: A(1) }, T::Some { f: A(7), self_data: A(7) }, T::B(A(0)), T::B(A(1)), T::B(A(7))] }
-pub fn show(x: &T) -> String { #[allow(unused_variables)] match x { T::Some { f: p0, self_data: p1 } => format!("Some({},{})", sv(p0), sv(p1)), T::B(p0) => format!("B({})", sv(p0)) } }
-pub fn o_disc(x: &T) -> i128 { match x { T::Some { f: _, self_data: _ } => 0, T::B(_) => 1 } }
-pub fn o_cmp(a: &T, b: &T) -> Ordering { match (a, b) { (T::Some { f: a0, self_data: a1 }, T::Some { f: b0, self_data: b1 }) => { let c = ::core::cmp::Ord::cmp(a0, b0); if c != Ordering::Equal { return c; } Ordering::Equal }, (T::B(a0), T::B(b0)) => {  Ordering::Equal }, _ => o_disc(a).cmp(&o_disc(b)) } }
+pub fn values() -> Vec<T> { vec![T::C(A(1), A(1), A(7), A(1)), T::C(A(1), A(7), A(0), A(7)), T::C(A(0), A(1), A(0), A(1)), T::C(A(1), A(7), A(1), A(0)), T::C(A(7), A(7), A(0), A(1)), T::C(A(7), A(1), A(0), A(7)), T::C(A(7), A(1), A(1), A(1)), T::C(A(1), A(1), A(1), A(7)), T::C(A(7), A(7), A(1), A(7)), T::C(A(0), A(0), A(1), A(7)), T::C(A(0), A(0), A(0), A(1)), T::C(A(1), A(7), A(0), A(0)), T::C(A(7), A(7), A(7), A(1)), T::C(A(0), A(1), A(0), A(0)), T::C(A(1), A(0), A(1), A(0)), T::C(A(1), A(7), A(0), A(1)), T::C(A(7), A(0), A(1), A(1)), T::C(A(1), A(0), A(1), A(7)), T::None(A(0), A(1), A(0), A(1)), T::None(A(7), A(7), A(0), A(0)), T::None(A(1), A(1), A(1), A(0)), T::None(A(7), A(0), A(0), A(1)), T::None(A(1), A(0), A(7), A(0)), T::None(A(7), A(1), A(0), A(0)), T::None(A(1), A(7), A(7), A(0)), T::None(A(0), A(7), A(7), A(0)), T::None(A(1), A(1), A(1), A(1)), T::None(A(0), A(7), A(1), A(7)), T::None(A(7), A(0), A(1), A(7)), T::None(A(7), A(7), A(0), A(7)), T::None(A(7), A(1), A(1), A(0)), T::None(A(1), A(7), A(0), A(7)), T::None(A(1), A(7), A(7), A(7)), T::None(A(0), A(1), A(0), A(7)), T::None(A(0), A(7), A(1), A(1)), T::None(A(0), A(1), A(1), A(0))] }
+pub fn show(x: &T) -> String { #[allow(unused_variables)] match x { T::C(p0, p1, p2, p3) => format!("C({},{},{},{})", sv(p0), sv(p1), sv(p2), sv(p3)), T::None(p0, p1, p2, p3) => format!("None({},{},{},{})", sv(p0), sv(p1), sv(p2), sv(p3)) } }
+pub fn o_disc(x: &T) -> i128 { match x { T::C(_, _, _, _) => 0, T::None(_, _, _, _) => 1 } }
+pub fn o_cmp(a: &T, b: &T) -> Ordering { match (a, b) { (T::C(a0, a1, a2, a3), T::C(b0, b1, b2, b3)) => { let c = m_cmp(a1, b1); if c != Ordering::Equal { return c; } let c = m_cmp(a3, b3); if c != Ordering::Equal { return c; } let c = m_cmp(a0, b0); if c != Ordering::Equal { return c; } let c = ::core::cmp::Ord::cmp(a2, b2); if c != Ordering::Equal { return c; } Ordering::Equal }, (T::None(a0, a1, a2, a3), T::None(b0, b1, b2, b3)) => { let c = m_cmp(a1, b1); if c != Ordering::Equal { return c; } let c = ::core::cmp::Ord::cmp(a2, b2); if c != Ordering::Equal { return c; } let c = m_cmp(a3, b3); if c != Ordering::Equal { return c; } Ordering::Equal }, _ => o_disc(a).cmp(&o_disc(b)) } }
 pub fn run(out: &mut Out) { let vs = values(); for (i, a) in vs.iter().enumerate() { for (j, b) in vs.iter().enumerate() { let e = o_cmp(a, b); let g = ::core::cmp::Ord::cmp(a, b); out.check(g == e, "ord_29", "cmp", || format!("cmp({}, {}) = {:?} expected {:?}", show(a), show(b), g, e)); let g2 = ::core::cmp::PartialOrd::partial_cmp(a, b); out.check(g2 == Some(e), "ord_29", "partial_is_some_cmp", || format!("partial_cmp({}, {}) = {:?} expected Some({:?})", show(a), show(b), g2, e)); } } }
